@@ -25,7 +25,7 @@ import kgen
 
 ID = 'C14'
 TITLE = 'OpenMVG export then import preserves images, poses, structure and matches'
-GEN = []
+GEN = ['MvgIntrinsics']
 RULE = ('each case = one generated dataset inside OpenMVG\'s range (kgen base: sensor ids incl. non-camera sensors, timestamp styles, '
         'orphan poses; then 1..6 uniquely named images over the directory layouts top / onedir / common / mixed / echo (the name of the common directory comes back deeper in the path) / flip (names whose '
         'order changes when "/" becomes "_"), 1..2 used cameras (+ sometimes an unused one) among SIMPLE_PINHOLE / PINHOLE / '
